@@ -106,6 +106,10 @@ def run(ctx):
             # the relation fails: excused only if the base or the variant deviates from the specification by a listed finding
             why = [c for c in (cls.get(base["id"]), cls.get(r["id"])) if c is not None]
             fids = [c[0] for c in why if c[0] is not None]
+            if what == "perm" and base.get("clauses") and "C03-interval-alias" in pc.static_classes(base):
+                # a window given by bindings (`"id"@[?lo,?hi]`) reads its bounds from the row built SO FAR: placed before the
+                # clause that binds ?lo / ?hi it is unrestricted - clause order matters (listed finding C03-interval)
+                fids.append("C03-interval")
             if what in ("cfg", "rep") or not fids or any(f != "combination" and f not in findings for f in fids):
                 nviol += 1
                 if nviol <= 5:
@@ -135,3 +139,7 @@ def run(ctx):
                                "with_optional": sum(1 for g, rs in groups.items() if rs[0].get("has_optional"))}
     ctx.assumptions += ["partial: goroutine scheduling and GOMAXPROCS are exercised by the correspondence run only; the model states "
                         "scheduler independence as permutation invariance of the per-row fan-out (C14_completion_order)"]
+
+
+def search(ctx, broken):
+    return pc.search_crash(ctx, "c14")
